@@ -16,23 +16,169 @@ _PNOTE = ("Trusted: Lean 4.33 kernel; axioms propext/Classical.choice/Quot.sound
           "correspondence run of the same check samples on every run (Go harness + compiled Lean driver + line protocol); tools/gen for the regenerated parts.")
 def _p(design, text, technique="Lean 4 theorems (kernel-checked, axioms audited) about a model tied to the code by a per-run correspondence check"):
     return {"category": "proof", "text": text, "design_ref": design, "note": _PNOTE, "technique": technique}
-TEXT = {
-    "C04": _p("8/C04", "Theorems (Properties/C04.lean, 26): for every class of operands with at least one zero or infinity and every mode, the model of Add Sub Mul Quo FMA returns exactly the IEEE-754 result of Spec/IEEE.lean, panics with ErrNaN exactly for the invalid forms, leaves a valid receiver after a NaN, product/quotient signs are XOR, zero sums follow the sign rule. The finite+zero sub-cases (which round) and FMA with a finite product are stated with the rounding lemma as hypothesis / as _partial; they are closed by the C01/C03 theorems. The exhaustive class product x 6 modes is also executed on the real code every run and compared with model and specification."),
-    "C06": _p("8/C06", "Theorems (Properties/C06.lean, 14; Proofs/Vec DecOps Mul Div, 3200 lines) about the L0 word-list model of dec.go built on the word functions regenerated from the Go source, for ALL lengths and ALL thresholds: every vector kernel equals its arithmetic definition; add sub cmp shl shr mulAddWW divW basicMul; karatsuba_spec (any threshold, incl. the |x1-x0|*|y0-y1| sign handling), mul_spec, basicSqr/karatsubaSqr/sqr_spec, threshold independence as equality of word lists; Knuth algorithm D: divBasic_spec (the q-hat estimate, multiply-subtract, add-back WITH the decimal carry), divLarge, div_total: quotient and remainder exact, normalised, and no error outcome on valid operands. Not at theorem level: divRecursive (divisors >= 100 words), decided by the run against natOf arithmetic. The run: dec.mul/sqr/div through the hooks under random thresholds vs the L0 model (same thresholds) vs arithmetic; Mul/Quo through the public API.",
-              "Lean 4 theorems (induction over word lists, all sizes, thresholds as parameters) + kernel-level correspondence under random tuning"),
-    "C07": _p("8/C07", "Theorems (Properties/C07.lean) over definitions REGENERATED from the Go source on every run: div10W_g (Granlund-Montgomery) mul10WW_g div10WW_g add10WWW_g sub10WWW_g equal their mathematical definition for all inputs within the precondition; all 18 rows of pow10DivTab64 divide every 64-bit word exactly; decDigits64, nlz10, trailingZeroDigits, pow10tab, pow5tab, constants. Assembly: not yet at theorem level (translator in progress) - decided by the run: each of the 12 kernels, assembly vs portable Go vs L0 Lean model vs definition, in-place and shifted-overlap destinations, plus identical public-API transcripts under the default, decimal_pure_go and math_big_pure_go builds.",
-              "Lean 4 theorems over code regenerated from the Go source by tools/gen + kernel-level correspondence (asm vs Go vs Lean model vs arithmetic)"),
-    "C09": _p("8/C09", "Theorems (Properties/C09.lean, 46): for every operation of the model and every aliasing flag combination the receiver's mode is unchanged and its precision is prec if non-zero else the documented value (max of operand precisions; x.prec for Set/Neg/Abs; 34 or digit count for integer setters); Copy/SetMantExp/MantExp copy exactly prec and mode of the source. Operands-unmodified is the value semantics of the model; on the real code it is checked every run by before/after snapshots of every variable including backing arrays up to capacity."),
-    "C10": _p("8/C10", "Theorems (Properties/C10.lean, 39): for Add Sub Mul Quo FMA Set Neg Abs Copy SetMantExp MantExp and every combination of 'operand is the receiver' flags, the model's result equals the result with the operand passed as a separate variable holding the same value (FMA up to unobservable stale storage); the result depends on the receiver only through its precision and mode (observational equality). Buffer-level aliasing (dec.mul/sqr/div/shl/shr/add/sub with nil, stale and operand-aliasing receivers, poisoned pool buffers) is decided by the kernel-level correspondence run."),
-    "C16": _p("8/C16", "Theorems (Properties/C16.lean, 19): cmp_spec - for canonical operands Cmp equals the order of the exact rational values with -Inf < finite < +Inf and -0 = +0 (Spec.cmpSV), independent of precision, mode, accuracy and mantissa length; reflexive, antisymmetric, transitive; consistent with Sign/zero/infinity classification. Nothing partial."),
-    "C01": _t("8/C01"), "C02": _t("8/C02"), "C03": _t("8/C03"), 
-    "C05": _p("8/C05", "Theorems (Properties/C05.lean, 27; Proofs/Sqrt.lean 970 lines): sqrt_correct - for every canonical finite x >= 0, every effective precision p >= 1 and mode, the model's Sqrt returns the value Spec.sqrtSV prescribes (the integer bracket N^2 <= X < (N+1)^2 of the real root, given by Nat.sqrt with a sticky flag, rounded once), with the receiver's precision and mode preserved; sqrtSpec_bracket/unique/eq_round tie that specification to 'the real root rounded once' without real numbers; midpoint_round - rounding the midpoint N*10+5 equals rounding any value strictly inside (N, N+1) in all six modes (the repaired code's final step); perfect squares give the exact root in every mode; specials, NaN iff negative, aliasing. ABSTRACTED in the model and therefore not covered by a theorem: the Newton iteration and the two correction loops (the model takes the unique candidate s with s^2 <= z < (s+ulp)^2); their exit condition and termination are tied by the run only (perfect squares +-1, exact-tie roots, an exhaustive small-integer sweep at the precisions with least Newton slack)."),
-    "C14": _p("8/C14", "Theorems (Properties/C14.lean, 42): for canonical x - intMant = floor|x|, minPrec/isInt characterised by divisibility and by the exact value, Int = truncation with accuracy Exact iff integer else Below/Above by sign, Int64/Uint64 = truncation when it fits else the documented saturation, agreement with the executable spec (truncSV); setters as corollaries of round_correct: SetInt64/SetUint64/NewDecimal/SetInt store the argument rounded once (exactly, with the documented precision, when the precision was 0). SetRat and Rat (math/big rationals) and the binary<->decimal radix loops decToNat/setNat are decided by the run only."),
-    "C17": _p("8/C17", "Theorems (Properties/C17.lean, 18; Proofs/GobRT.lean): gob_roundtrip - for every canonical x decoding the encoding into a zero value gives back form, sign, precision, mode, accuracy, exponent and digits (low zero words beyond the precision are not transmitted: gob_roundtrip_words, gob_roundtrip_exact); every byte of an encoding is < 256; gob_decode_safe - any payload accepted into a fresh receiver yields a canonical value (with gobDecode_canonical of C08 for arbitrary receivers); decoding is total by construction (no panic outcome in the model). Decoding into a receiver with its own precision is SetPrec of the decoded value (C01 rounding)."),
-    "C20": _p("8/C20", "Theorems (Properties/C20.lean, 10): setBitsExp_correct - for ANY word slice with words < 10^19 (leading zero words/digits included) SetBitsExp stores the positive value natOf(ws) x 10^(e - 19 len) rounded once (0 for an all-zero slice), with the documented precision when it was 0; mantExp_spec; setMantExp_mantExp - SetMantExp(MantExp(x)) has exactly x's value, sign, precision, mode; setMantExp_range - the result is +-0 / +-Inf exactly when m.exp + e leaves [MinExp, MaxExp] (unbounded integers in the model: the int64 saturation of the repaired code is tied by the run at the int64 extremes)."),
-    "C19": _p("8/C19", "Theorems (Properties/C19.lean, 19) over the L2 program model, by induction over operation sequences: while an error is latched every context operation returns its receiver and leaves all variables and the context untouched (ctx_latch_noop, ctx_first_error_wins, ctx_err_monotone); Err() returns the recorded error exactly once and re-arms (ctx_Err_once); a NaN never reaches the caller as a panic and is latched iff the underlying method raises ErrNaN (ctx_no_panic_on_nan, ctx_latch_iff); other panics propagate unchanged and do not latch; after a non-latched operation the receiver has the context's precision and mode whatever it had before, and the result is the underlying method applied to apply(z) (ctx_apply_attrs, ctx_step_result, ctx_rounds with the C01 correctness statement as hypothesis; ctx_*_fresh for receivers distinct from operands). The run drives the real Context through sequences with NaN-producing operands, Err() calls and a nil operand (non-NaN panic)."),
-    "C15": _t("8/C15", "Partial by nature: math/big (SetFloat, Float) is not modelled; its error bounds are decided by the run against the exact oracle only."), "C11": _t("8/C11"), "C12": _t("8/C12"), "C13": _t("8/C13"),
-    "C18": _p("8/C18", "Partial by nature (the Go memory model and the scheduler are not modelled). Theorems (Properties/C18.lean, 8) about an abstract event model (DecimalModel/Pool.lean): for ANY number of goroutines and EVERY interleaving that respects the discipline P1-P4 (writes only to private or currently-held pool buffers; reads only of shared operands, private buffers, or held pool buffers after own write; get/put exclusive), no two accesses of different goroutines to one address conflict without a put/get hand-over between them (no_conflict), every read returns the initial shared value or the goroutine's own last write (read_value_local), and the projection onto one goroutine is a valid sequential run with the same read values (interleaving_noninterference). The premises are tied to the code by the run: operand snapshots incl. backing arrays, pool poisoning on get AND put with an outstanding-set under -tags verif (use-after-put, double put, reliance on zeroed scratch change results), and k in {2,4,8,16} goroutines on shared operands compared with the sequential result (support).",
-              "Lean 4 theorem over all interleavings of an abstract ownership model; premises tied by deterministic pool-poisoning and snapshot runs"),
-    "C08": _p("8/C08", "Theorems (Properties/C08.lean, 30): round/setExpAndRound/setNormAndRound produce canonical values (normalised mantissa, words of digits beyond the precision zero, exponent in [MinExp, MaxExp], carry to Inf only at MaxExp); every L1 operation (Add Sub Mul Quo FMA Sqrt Set Neg Abs Copy SetPrec SetMode SetInf SetInt64/Uint64 SetInt SetBitsExp SetMantExp MantExp, GobDecode of ANY accepted payload, the Context wrappers) preserves Canonical for every aliasing flag combination; reachable_canonical: by induction over arbitrary operation sequences of the L2 program model every variable stays canonical; canonical_unique: equal canonical values have identical digits and exponent. On the real code the same invariant is monitored after every step of generated programs (incl. failed parses, hostile gob payloads, raw mantissa input)."),
-}
+TEXT = {}
+
+def _set(pid, entry):
+    assert pid not in TEXT, 'duplicate manifest text for ' + pid
+    TEXT[pid] = entry
+
+_set('C01', {
+    'category': 'proof',
+    'design_ref': '8/C01',
+    'technique': 'Lean 4 theorems (kernel-checked, axioms audited) about a model tied to the code by a per-run correspondence check',
+    'note': 'Trusted: Lean 4.33 kernel; axioms propext/Classical.choice/Quot.sound only (audited per theorem every run); the Lean specification (lean/DecimalModel/Spec); the hand-written Lean model of the Go methods (lean/DecimalModel), whose agreement with /repo is what the correspondence run of the same check samples on every run (Go harness + compiled Lean driver + line protocol); tools/gen for the regenerated parts.',
+    'text': "Theorems (Properties/C01.lean, 23; Proofs/Round RoundSpec Canonical Arith ArithOps AddFar): round_correct - the model's round equals the exact magnitude rounded once (all modes, signs, carries, exponent-range ends); add_correct, sub_correct, mul_correct, quo_correct - for ALL canonical finite operands, every receiver precision >= 1 (or 0: largest operand precision) and mode, the receiver holds exactly Spec.addSV/subSV/mulSV/quoSV = the infinitely precise result rounded once, value AND accuracy, including exact cancellation (sign of zero), underflow to a zero and overflow to an infinity; uquo always has prec+1 quotient digits so remainder = sticky is sound; set_correct, setPrec_correct, neg_correct, abs_correct (round, then change the sign); addForRound_sound - the far-apart shortcut of the executable oracle equals the plain exact sum. The L1 model replaces dec.add/sub/shl/mul/div by arithmetic, which Properties/C06 proves about the word-level code for all sizes.",
+})
+
+_set('C02', {
+    'category': 'proof',
+    'design_ref': '8/C02',
+    'technique': 'Lean 4 theorems (kernel-checked, axioms audited) about a model tied to the code by a per-run correspondence check',
+    'note': 'Trusted: Lean 4.33 kernel; axioms propext/Classical.choice/Quot.sound only (audited per theorem every run); the Lean specification (lean/DecimalModel/Spec); the hand-written Lean model of the Go methods (lean/DecimalModel), whose agreement with /repo is what the correspondence run of the same check samples on every run (Go harness + compiled Lean driver + line protocol); tools/gen for the regenerated parts.',
+    'text': 'Theorems (Properties/C02.lean, 15): about the specification itself - for a finite result of Spec.round the coefficient has exactly p digits, acc = Exact iff stored = exact, Above iff stored > exact, Below iff stored < exact (signed), |stored - exact| < 1 ulp, directed modes pick the mandated neighbour, nearest modes are within ulp/2, underflow/overflow accuracies; and about the operations - add_acc, sub_acc, mul_acc, quo_acc, set_acc: the accuracy left in the receiver is the sign of (stored - exact). Setters SetInt SetInt64 SetUint64 NewDecimal SetMantExp: Properties/C14, C20 (accuracy is part of Spec.agrees there). FMA: C03. Base-10 Parse: C12.',
+})
+
+_set('C03', {
+    'category': 'proof',
+    'design_ref': '8/C03',
+    'technique': 'Lean 4 theorems (kernel-checked, axioms audited) about a model tied to the code by a per-run correspondence check',
+    'note': 'Trusted: Lean 4.33 kernel; axioms propext/Classical.choice/Quot.sound only (audited per theorem every run); the Lean specification (lean/DecimalModel/Spec); the hand-written Lean model of the Go methods (lean/DecimalModel), whose agreement with /repo is what the correspondence run of the same check samples on every run (Go harness + compiled Lean driver + line protocol); tools/gen for the regenerated parts.',
+    'text': "Theorems (Properties/C03.lean, 6): fma_correct - for canonical finite x y u the receiver holds Spec.fmaSV = x*y+u rounded ONCE (value and accuracy), under two explicit hypotheses: 19*(len x + len y) <= MaxPrec (the scratch precision MaxPrec must hold the full product) and the exact product's decimal exponent within [MinExp, MaxExp] (outside it the code flushes the product first: the recorded known finding); fma_zero_sum_sign. Aliasing of the receiver with x, y or u: Properties/C10 (fma_alias_indep). The run adds cancellation, far-above/far-below addends, all 15 aliasing partitions and measures how often the fused result differs from Mul-then-Add.",
+})
+
+_set('C04', {
+    'category': 'proof',
+    'design_ref': '8/C04',
+    'technique': 'Lean 4 theorems (kernel-checked, axioms audited) about a model tied to the code by a per-run correspondence check',
+    'note': 'Trusted: Lean 4.33 kernel; axioms propext/Classical.choice/Quot.sound only (audited per theorem every run); the Lean specification (lean/DecimalModel/Spec); the hand-written Lean model of the Go methods (lean/DecimalModel), whose agreement with /repo is what the correspondence run of the same check samples on every run (Go harness + compiled Lean driver + line protocol); tools/gen for the regenerated parts.',
+    'text': 'Theorems (Properties/C04.lean, 26): for every class of operands with at least one zero or infinity and every mode, the model of Add Sub Mul Quo FMA returns exactly the IEEE-754 result of Spec/IEEE.lean, panics with ErrNaN exactly for the invalid forms, leaves a valid receiver after a NaN, product/quotient signs are XOR, zero sums follow the sign rule. The finite+zero sub-cases (which round) and FMA with a finite product are stated with the rounding lemma as hypothesis / as _partial; they are closed by the C01/C03 theorems. The exhaustive class product x 6 modes is also executed on the real code every run and compared with model and specification.',
+})
+
+_set('C05', {
+    'category': 'proof',
+    'design_ref': '8/C05',
+    'technique': 'Lean 4 theorems (kernel-checked, axioms audited) about a model tied to the code by a per-run correspondence check',
+    'note': 'Trusted: Lean 4.33 kernel; axioms propext/Classical.choice/Quot.sound only (audited per theorem every run); the Lean specification (lean/DecimalModel/Spec); the hand-written Lean model of the Go methods (lean/DecimalModel), whose agreement with /repo is what the correspondence run of the same check samples on every run (Go harness + compiled Lean driver + line protocol); tools/gen for the regenerated parts.',
+    'text': "Theorems (Properties/C05.lean, 27; Proofs/Sqrt.lean 970 lines): sqrt_correct - for every canonical finite x >= 0, every effective precision p >= 1 and mode, the model's Sqrt returns the value Spec.sqrtSV prescribes (the integer bracket N^2 <= X < (N+1)^2 of the real root, given by Nat.sqrt with a sticky flag, rounded once), with the receiver's precision and mode preserved; sqrtSpec_bracket/unique/eq_round tie that specification to 'the real root rounded once' without real numbers; midpoint_round - rounding the midpoint N*10+5 equals rounding any value strictly inside (N, N+1) in all six modes (the repaired code's final step); perfect squares give the exact root in every mode; specials, NaN iff negative, aliasing. ABSTRACTED in the model and therefore not covered by a theorem: the Newton iteration and the two correction loops (the model takes the unique candidate s with s^2 <= z < (s+ulp)^2); their exit condition and termination are tied by the run only (perfect squares +-1, exact-tie roots, an exhaustive small-integer sweep at the precisions with least Newton slack).",
+})
+
+_set('C06', {
+    'category': 'proof',
+    'design_ref': '8/C06',
+    'technique': 'Lean 4 theorems (induction over word lists, all sizes, thresholds as parameters) + kernel-level correspondence under random tuning',
+    'note': 'Trusted: Lean 4.33 kernel; axioms propext/Classical.choice/Quot.sound only (audited per theorem every run); the Lean specification (lean/DecimalModel/Spec); the hand-written Lean model of the Go methods (lean/DecimalModel), whose agreement with /repo is what the correspondence run of the same check samples on every run (Go harness + compiled Lean driver + line protocol); tools/gen for the regenerated parts.',
+    'text': 'Theorems (Properties/C06.lean, 14; Proofs/Vec DecOps Mul Div, 3200 lines) about the L0 word-list model of dec.go built on the word functions regenerated from the Go source, for ALL lengths and ALL thresholds: every vector kernel equals its arithmetic definition; add sub cmp shl shr mulAddWW divW basicMul; karatsuba_spec (any threshold, incl. the |x1-x0|*|y0-y1| sign handling), mul_spec, basicSqr/karatsubaSqr/sqr_spec, threshold independence as equality of word lists; Knuth algorithm D: divBasic_spec (the q-hat estimate, multiply-subtract, add-back WITH the decimal carry), divLarge, div_total: quotient and remainder exact, normalised, and no error outcome on valid operands. Not at theorem level: divRecursive (divisors >= 100 words), decided by the run against natOf arithmetic. The run: dec.mul/sqr/div through the hooks under random thresholds vs the L0 model (same thresholds) vs arithmetic; Mul/Quo through the public API.',
+})
+
+_set('C07', {
+    'category': 'proof',
+    'design_ref': '8/C07',
+    'technique': 'Lean 4 theorems over code regenerated from the Go source by tools/gen + kernel-level correspondence (asm vs Go vs Lean model vs arithmetic)',
+    'note': 'Trusted: Lean 4.33 kernel; axioms propext/Classical.choice/Quot.sound only (audited per theorem every run); the Lean specification (lean/DecimalModel/Spec); the hand-written Lean model of the Go methods (lean/DecimalModel), whose agreement with /repo is what the correspondence run of the same check samples on every run (Go harness + compiled Lean driver + line protocol); tools/gen for the regenerated parts.',
+    'text': 'Theorems (Properties/C07.lean) over definitions REGENERATED from the Go source on every run: div10W_g (Granlund-Montgomery) mul10WW_g div10WW_g add10WWW_g sub10WWW_g equal their mathematical definition for all inputs within the precondition; all 18 rows of pow10DivTab64 divide every 64-bit word exactly; decDigits64, nlz10, trailingZeroDigits, pow10tab, pow5tab, constants. Assembly: not yet at theorem level (translator in progress) - decided by the run: each of the 12 kernels, assembly vs portable Go vs L0 Lean model vs definition, in-place and shifted-overlap destinations, plus identical public-API transcripts under the default, decimal_pure_go and math_big_pure_go builds.',
+})
+
+_set('C08', {
+    'category': 'proof',
+    'design_ref': '8/C08',
+    'technique': 'Lean 4 theorems (kernel-checked, axioms audited) about a model tied to the code by a per-run correspondence check',
+    'note': 'Trusted: Lean 4.33 kernel; axioms propext/Classical.choice/Quot.sound only (audited per theorem every run); the Lean specification (lean/DecimalModel/Spec); the hand-written Lean model of the Go methods (lean/DecimalModel), whose agreement with /repo is what the correspondence run of the same check samples on every run (Go harness + compiled Lean driver + line protocol); tools/gen for the regenerated parts.',
+    'text': 'Theorems (Properties/C08.lean, 30): round/setExpAndRound/setNormAndRound produce canonical values (normalised mantissa, words of digits beyond the precision zero, exponent in [MinExp, MaxExp], carry to Inf only at MaxExp); every L1 operation (Add Sub Mul Quo FMA Sqrt Set Neg Abs Copy SetPrec SetMode SetInf SetInt64/Uint64 SetInt SetBitsExp SetMantExp MantExp, GobDecode of ANY accepted payload, the Context wrappers) preserves Canonical for every aliasing flag combination; reachable_canonical: by induction over arbitrary operation sequences of the L2 program model every variable stays canonical; canonical_unique: equal canonical values have identical digits and exponent. On the real code the same invariant is monitored after every step of generated programs (incl. failed parses, hostile gob payloads, raw mantissa input).',
+})
+
+_set('C09', {
+    'category': 'proof',
+    'design_ref': '8/C09',
+    'technique': 'Lean 4 theorems (kernel-checked, axioms audited) about a model tied to the code by a per-run correspondence check',
+    'note': 'Trusted: Lean 4.33 kernel; axioms propext/Classical.choice/Quot.sound only (audited per theorem every run); the Lean specification (lean/DecimalModel/Spec); the hand-written Lean model of the Go methods (lean/DecimalModel), whose agreement with /repo is what the correspondence run of the same check samples on every run (Go harness + compiled Lean driver + line protocol); tools/gen for the regenerated parts.',
+    'text': "Theorems (Properties/C09.lean, 46): for every operation of the model and every aliasing flag combination the receiver's mode is unchanged and its precision is prec if non-zero else the documented value (max of operand precisions; x.prec for Set/Neg/Abs; 34 or digit count for integer setters); Copy/SetMantExp/MantExp copy exactly prec and mode of the source. Operands-unmodified is the value semantics of the model; on the real code it is checked every run by before/after snapshots of every variable including backing arrays up to capacity.",
+})
+
+_set('C10', {
+    'category': 'proof',
+    'design_ref': '8/C10',
+    'technique': 'Lean 4 theorems (kernel-checked, axioms audited) about a model tied to the code by a per-run correspondence check',
+    'note': 'Trusted: Lean 4.33 kernel; axioms propext/Classical.choice/Quot.sound only (audited per theorem every run); the Lean specification (lean/DecimalModel/Spec); the hand-written Lean model of the Go methods (lean/DecimalModel), whose agreement with /repo is what the correspondence run of the same check samples on every run (Go harness + compiled Lean driver + line protocol); tools/gen for the regenerated parts.',
+    'text': "Theorems (Properties/C10.lean, 39): for Add Sub Mul Quo FMA Set Neg Abs Copy SetMantExp MantExp and every combination of 'operand is the receiver' flags, the model's result equals the result with the operand passed as a separate variable holding the same value (FMA up to unobservable stale storage); the result depends on the receiver only through its precision and mode (observational equality). Buffer-level aliasing (dec.mul/sqr/div/shl/shr/add/sub with nil, stale and operand-aliasing receivers, poisoned pool buffers) is decided by the kernel-level correspondence run.",
+})
+
+_set('C11', {
+    'category': 'proof',
+    'design_ref': '8/C11',
+    'technique': 'Lean 4 theorems (kernel-checked, axioms audited) about a model tied to the code by a per-run correspondence check',
+    'note': 'Trusted: Lean 4.33 kernel; axioms propext/Classical.choice/Quot.sound only (audited per theorem every run); the Lean specification (lean/DecimalModel/Spec); the hand-written Lean model of the Go methods (lean/DecimalModel), whose agreement with /repo is what the correspondence run of the same check samples on every run (Go harness + compiled Lean driver + line protocol); tools/gen for the regenerated parts.',
+    'text': "Theorems (Properties/C11.lean, 3; Proofs/TextRT Scan): natDigits_readback; text_shortest_digits - for every canonical finite x, Text(x,'e',-1) is the rendering of a literal whose digit string has exactly MinPrec(x) digits (last one non-zero) and whose value is exactly x; parse_text_roundtrip_e - parsing that string (base 10 or 0) into any receiver with precision >= MinPrec returns exactly x's value and sign with accuracy Exact. The other formats (E f g G p b, MarshalText, JSON) and +-0 / +-Inf are decided by the run: output read by an independent reader must denote exactly x with exactly MinPrec digits, then Parse and Cmp on the real code.",
+})
+
+_set('C12', {
+    'category': 'proof',
+    'design_ref': '8/C12',
+    'technique': 'Lean 4 theorems (kernel-checked, axioms audited) about a model tied to the code by a per-run correspondence check',
+    'note': 'Trusted: Lean 4.33 kernel; axioms propext/Classical.choice/Quot.sound only (audited per theorem every run); the Lean specification (lean/DecimalModel/Spec); the hand-written Lean model of the Go methods (lean/DecimalModel), whose agreement with /repo is what the correspondence run of the same check samples on every run (Go harness + compiled Lean driver + line protocol); tools/gen for the regenerated parts.',
+    'text': "Theorems (Properties/C12.lean, 24; Proofs/Scan 1100 lines): parse10_correct - for EVERY well-formed base-10 literal [sign] digits [. digits] [e [sign] digits] (given as structured data and rendered), base 10 or 0, Parse stores the literal's exact value rounded once to the receiver's precision (34 if 0) and mode with truthful accuracy; a zero coefficient gives a signed zero; an exponent outside the range gives an error; rejection for ALL strings of each shape: empty, lone sign, no mantissa digits, trailing or doubled '_', exponent marker without digits, exponent beyond int64, trailing bytes after a complete number; parse_total - the model's Parse is a total function into ok/error (the scanner is structurally recursive on the input: Lean checks termination), invalid base arguments being the documented panic outside the domain. Not at theorem level: 'E', 'p' exponents and bases 2/8/16 (exact when representable / within one ulp), acceptance set = math/big's - decided by the run three ways (Go, Lean scanner, math/big Float.Parse).",
+})
+
+_set('C13', {
+    'category': 'exploration',
+    'design_ref': '8/C13',
+    'technique': 'Lean 4 executable specification + model, differential correspondence run (proofs in progress)',
+    'note': 'Trusted: the Lean specification (lean/DecimalModel/Spec), the Go harness and line protocol, the compiled Lean driver, GMP, the Go toolchain. The Lean model is hand-written; its agreement with the code is what the run samples.',
+    'text': "No theorem of this property is finished yet: the check is a three-way differential run (real Go code / executable Lean model of the code / executable Lean specification 'exact result rounded once' over rationals) on generated and constructed cases. ",
+})
+
+_set('C14', {
+    'category': 'proof',
+    'design_ref': '8/C14',
+    'technique': 'Lean 4 theorems (kernel-checked, axioms audited) about a model tied to the code by a per-run correspondence check',
+    'note': 'Trusted: Lean 4.33 kernel; axioms propext/Classical.choice/Quot.sound only (audited per theorem every run); the Lean specification (lean/DecimalModel/Spec); the hand-written Lean model of the Go methods (lean/DecimalModel), whose agreement with /repo is what the correspondence run of the same check samples on every run (Go harness + compiled Lean driver + line protocol); tools/gen for the regenerated parts.',
+    'text': 'Theorems (Properties/C14.lean, 42): for canonical x - intMant = floor|x|, minPrec/isInt characterised by divisibility and by the exact value, Int = truncation with accuracy Exact iff integer else Below/Above by sign, Int64/Uint64 = truncation when it fits else the documented saturation, agreement with the executable spec (truncSV); setters as corollaries of round_correct: SetInt64/SetUint64/NewDecimal/SetInt store the argument rounded once (exactly, with the documented precision, when the precision was 0). SetRat and Rat (math/big rationals) and the binary<->decimal radix loops decToNat/setNat are decided by the run only.',
+})
+
+_set('C15', {
+    'category': 'exploration',
+    'design_ref': '8/C15',
+    'technique': 'Lean 4 executable specification + model, differential correspondence run (proofs in progress)',
+    'note': 'Trusted: the Lean specification (lean/DecimalModel/Spec), the Go harness and line protocol, the compiled Lean driver, GMP, the Go toolchain. The Lean model is hand-written; its agreement with the code is what the run samples.',
+    'text': "No theorem of this property is finished yet: the check is a three-way differential run (real Go code / executable Lean model of the code / executable Lean specification 'exact result rounded once' over rationals) on generated and constructed cases. Partial by nature: math/big (SetFloat, Float) is not modelled; its error bounds are decided by the run against the exact oracle only.",
+})
+
+_set('C16', {
+    'category': 'proof',
+    'design_ref': '8/C16',
+    'technique': 'Lean 4 theorems (kernel-checked, axioms audited) about a model tied to the code by a per-run correspondence check',
+    'note': 'Trusted: Lean 4.33 kernel; axioms propext/Classical.choice/Quot.sound only (audited per theorem every run); the Lean specification (lean/DecimalModel/Spec); the hand-written Lean model of the Go methods (lean/DecimalModel), whose agreement with /repo is what the correspondence run of the same check samples on every run (Go harness + compiled Lean driver + line protocol); tools/gen for the regenerated parts.',
+    'text': 'Theorems (Properties/C16.lean, 19): cmp_spec - for canonical operands Cmp equals the order of the exact rational values with -Inf < finite < +Inf and -0 = +0 (Spec.cmpSV), independent of precision, mode, accuracy and mantissa length; reflexive, antisymmetric, transitive; consistent with Sign/zero/infinity classification. Nothing partial.',
+})
+
+_set('C17', {
+    'category': 'proof',
+    'design_ref': '8/C17',
+    'technique': 'Lean 4 theorems (kernel-checked, axioms audited) about a model tied to the code by a per-run correspondence check',
+    'note': 'Trusted: Lean 4.33 kernel; axioms propext/Classical.choice/Quot.sound only (audited per theorem every run); the Lean specification (lean/DecimalModel/Spec); the hand-written Lean model of the Go methods (lean/DecimalModel), whose agreement with /repo is what the correspondence run of the same check samples on every run (Go harness + compiled Lean driver + line protocol); tools/gen for the regenerated parts.',
+    'text': 'Theorems (Properties/C17.lean, 18; Proofs/GobRT.lean): gob_roundtrip - for every canonical x decoding the encoding into a zero value gives back form, sign, precision, mode, accuracy, exponent and digits (low zero words beyond the precision are not transmitted: gob_roundtrip_words, gob_roundtrip_exact); every byte of an encoding is < 256; gob_decode_safe - any payload accepted into a fresh receiver yields a canonical value (with gobDecode_canonical of C08 for arbitrary receivers); decoding is total by construction (no panic outcome in the model). Decoding into a receiver with its own precision is SetPrec of the decoded value (C01 rounding).',
+})
+
+_set('C18', {
+    'category': 'proof',
+    'design_ref': '8/C18',
+    'technique': 'Lean 4 theorem over all interleavings of an abstract ownership model; premises tied by deterministic pool-poisoning and snapshot runs',
+    'note': 'Trusted: Lean 4.33 kernel; axioms propext/Classical.choice/Quot.sound only (audited per theorem every run); the Lean specification (lean/DecimalModel/Spec); the hand-written Lean model of the Go methods (lean/DecimalModel), whose agreement with /repo is what the correspondence run of the same check samples on every run (Go harness + compiled Lean driver + line protocol); tools/gen for the regenerated parts.',
+    'text': "Partial by nature (the Go memory model and the scheduler are not modelled). Theorems (Properties/C18.lean, 8) about an abstract event model (DecimalModel/Pool.lean): for ANY number of goroutines and EVERY interleaving that respects the discipline P1-P4 (writes only to private or currently-held pool buffers; reads only of shared operands, private buffers, or held pool buffers after own write; get/put exclusive), no two accesses of different goroutines to one address conflict without a put/get hand-over between them (no_conflict), every read returns the initial shared value or the goroutine's own last write (read_value_local), and the projection onto one goroutine is a valid sequential run with the same read values (interleaving_noninterference). The premises are tied to the code by the run: operand snapshots incl. backing arrays, pool poisoning on get AND put with an outstanding-set under -tags verif (use-after-put, double put, reliance on zeroed scratch change results), and k in {2,4,8,16} goroutines on shared operands compared with the sequential result (support).",
+})
+
+_set('C19', {
+    'category': 'proof',
+    'design_ref': '8/C19',
+    'technique': 'Lean 4 theorems (kernel-checked, axioms audited) about a model tied to the code by a per-run correspondence check',
+    'note': 'Trusted: Lean 4.33 kernel; axioms propext/Classical.choice/Quot.sound only (audited per theorem every run); the Lean specification (lean/DecimalModel/Spec); the hand-written Lean model of the Go methods (lean/DecimalModel), whose agreement with /repo is what the correspondence run of the same check samples on every run (Go harness + compiled Lean driver + line protocol); tools/gen for the regenerated parts.',
+    'text': "Theorems (Properties/C19.lean, 19) over the L2 program model, by induction over operation sequences: while an error is latched every context operation returns its receiver and leaves all variables and the context untouched (ctx_latch_noop, ctx_first_error_wins, ctx_err_monotone); Err() returns the recorded error exactly once and re-arms (ctx_Err_once); a NaN never reaches the caller as a panic and is latched iff the underlying method raises ErrNaN (ctx_no_panic_on_nan, ctx_latch_iff); other panics propagate unchanged and do not latch; after a non-latched operation the receiver has the context's precision and mode whatever it had before, and the result is the underlying method applied to apply(z) (ctx_apply_attrs, ctx_step_result, ctx_rounds with the C01 correctness statement as hypothesis; ctx_*_fresh for receivers distinct from operands). The run drives the real Context through sequences with NaN-producing operands, Err() calls and a nil operand (non-NaN panic).",
+})
+
+_set('C20', {
+    'category': 'proof',
+    'design_ref': '8/C20',
+    'technique': 'Lean 4 theorems (kernel-checked, axioms audited) about a model tied to the code by a per-run correspondence check',
+    'note': 'Trusted: Lean 4.33 kernel; axioms propext/Classical.choice/Quot.sound only (audited per theorem every run); the Lean specification (lean/DecimalModel/Spec); the hand-written Lean model of the Go methods (lean/DecimalModel), whose agreement with /repo is what the correspondence run of the same check samples on every run (Go harness + compiled Lean driver + line protocol); tools/gen for the regenerated parts.',
+    'text': "Theorems (Properties/C20.lean, 10): setBitsExp_correct - for ANY word slice with words < 10^19 (leading zero words/digits included) SetBitsExp stores the positive value natOf(ws) x 10^(e - 19 len) rounded once (0 for an all-zero slice), with the documented precision when it was 0; mantExp_spec; setMantExp_mantExp - SetMantExp(MantExp(x)) has exactly x's value, sign, precision, mode; setMantExp_range - the result is +-0 / +-Inf exactly when m.exp + e leaves [MinExp, MaxExp] (unbounded integers in the model: the int64 saturation of the repaired code is tied by the run at the int64 extremes).",
+})
+
